@@ -16,7 +16,11 @@ Proved here, for every state / operation / response:
 * `keyed_no_push_after_untrack`, `keyed_no_push_after_unsubscribe` (unsubscribe, close, epoch-flip unsubscribe)
 * `resp_pairs_provided`       applyRefreshResponse emits only (version, data) pairs provided together;
 * `resp_version_max`          versioned: the stored version after an item is max(stored, provided);
-* `epoch_flip_unsubscribes_all`.
+* `epoch_flip_unsubscribes_all`;
+* `stale_track_rejected`      a track whose asynchronous verdict arrives after the subscription ended (or was
+                               replaced) changes nothing and is answered with permission denied;
+* the `rel` case of `keyed_versions_increase`: a delivery that stalled between the optimistic check and the
+  re-check under the lock is dropped unless its version is still above the connection's key version.
 Finding C25-1 (decided witness `c25_1_witness`): without KeepLatestData a backend `PrevData` patch is
 labelled with the entry's *current* version as base; after a SharedPollPublish raced the poll, that is not
 the version `PrevData` belongs to, and the connection that received the publish gets a patch it cannot
@@ -127,22 +131,37 @@ theorem applyResp_pushOK (s : St) (ep : String) (items : List Item) :
       · exact removeKey_pushOK _ _ e he
     · simp
 
+theorem track_pushOK (s : St) (c : ConnId) (k : Key) (v : Nat) : ∀ e ∈ (track s c k v).2, PushOK e := by
+  simp only [track]
+  intro e he
+  split at he
+  · simp at he
+  · split at he
+    · simp at he
+    · simp only at he
+      split at he
+      · simp at he; subst he; trivial
+      · simp at he
+
+theorem writePub3_pushOK (c : Conn) (w : Stalled) : ∀ e ∈ (writePub3 c w).2, PushOK e := by
+  unfold writePub3
+  split
+  · simp
+  · rename_i ks _
+    by_cases hv : w.version ≤ ks.version
+    · simp [hv]
+    · simp only [hv, if_false]
+      have hlt : ks.version < w.version := Nat.not_le.mp hv
+      split
+      · split <;> (intro e he; simp at he; subst he; exact hlt)
+      · intro e he; simp at he; subst he; exact hlt
+
 /-- **Monotonicity.**  Every push emitted by any operation carries a version strictly greater than the
 version the connection held for the key immediately before that push (ghost `prev`). -/
 theorem keyed_versions_increase (s : St) (op : Op) : ∀ e ∈ (step s op).2, PushOK e := by
   cases op with
   | sub c d => simp [step]
-  | trk c k v =>
-    simp only [step, track]
-    intro e he
-    split at he
-    · simp at he
-    · split at he
-      · simp at he
-      · simp only at he
-        split at he
-        · simp at he; subst he; trivial
-        · simp at he
+  | trk c k v => exact track_pushOK s c k v
   | utk c k => simp [step]
   | unsub c => simp [step]
   | close c => simp [step, PushOK]
@@ -169,6 +188,48 @@ theorem keyed_versions_increase (s : St) (op : Op) : ∀ e ∈ (step s op).2, Pu
     split
     · simp
     · exact removeKey_pushOK s k
+  | bgpub k v ep d =>
+    simp only [step]
+    split
+    · simp
+    · unfold publishStall
+      split
+      · simp
+      · simp only
+        split
+        · exact flipEpoch_pushOK _ _
+        · split
+          · exact flipEpoch_pushOK _ _
+          · split
+            · split
+              · exact flipEpoch_pushOK _ _
+              · split
+                · exact flipEpoch_pushOK _ _
+                · split <;> exact flipEpoch_pushOK _ _
+            · exact flipEpoch_pushOK _ _
+  | rel =>
+    simp only [step, release]
+    split
+    · simp
+    · split
+      · simp
+      · exact writePub3_pushOK _ _
+  | trkd c k v =>
+    simp only [step]
+    split
+    · split
+      · simp
+      · simp [PushOK]
+    · simp
+  | tcb =>
+    simp only [step, trackCallback]
+    split
+    · simp
+    · split
+      · simp
+      · split
+        · exact track_pushOK _ _ _ _
+        · simp [PushOK]
 
 /-- over whole operation sequences -/
 theorem keyed_versions_increase_run (s : St) (ops : List Op) : ∀ e ∈ (run s ops).2, PushOK e := by
@@ -350,6 +411,21 @@ theorem epoch_flip_unsubscribes_all (s : St) (ep : String) (hne : s.epoch ≠ ep
       · right; subst h; simp
       · left; exact h
     · right; simp [h]
+
+/-- **A track request never commits onto another subscription.**  When the OnTrack verdict arrives after the
+subscription the request was issued on ended (unsubscribed, or unsubscribed and subscribed again: the
+generation differs), nothing is tracked: per-connection state and hub are unchanged and the request is
+answered with permission denied. -/
+theorem stale_track_rejected (s : St) (p : PendingTrack) (rest : List PendingTrack) (c : Conn)
+    (h : s.ptracks = p :: rest) (hc : alookup p.cid s.conns = some c)
+    (hg : ¬ (c.subscribed = true ∧ c.gen = p.gen)) :
+    (trackCallback s).2 = [Ev.err p.cid 103] ∧ (trackCallback s).1.conns = s.conns ∧
+      (trackCallback s).1.hub = s.hub ∧ (trackCallback s).1.entries = s.entries := by
+  unfold trackCallback
+  simp only [h, hc]
+  have : (c.subscribed && c.gen == p.gen) = false := by
+    cases hs : c.subscribed <;> simp_all
+  simp [this]
 
 /-! ## Finding C25-1: a PrevData patch after a racing publish does not apply -/
 
